@@ -69,6 +69,28 @@ def run(ctx):
             for extra in EXTRAS:
                 for h in H.gen_headers(rng, kind, n // 8, algs):
                     cases.append((kind, strict, extra, h, rng.random() < 0.5))
+    # always present (not left to the random generator): for every JWE algorithm, a complete header; the same with a
+    # caller-registered parameter (right type, wrong type), with an unregistered one, and with each algorithm-specific
+    # parameter missing or mistyped - checked with and without the per-algorithm table
+    good = {"epk": {"kty": "EC", "crv": "P-256", "x": "AA", "y": "AA"}, "apu": "QQ", "apv": "Qg", "iv": "AAAAAAAAAAAAAAAA", "tag": "AAAAAAAAAAAAAAAAAAAAAA",
+            "p2s": "c2FsdHNhbHQ", "p2c": 2048, "skid": "s"}
+    bad_of = {"jwk": "not-a-dict", "str": 7, "int": "2048"}
+    for alg in JWE_ALGS:
+        more_tbl = H.more_for(alg)
+        base = {"alg": alg, "enc": "A128GCM"}
+        base.update({n_: good[n_] for n_, (_, req) in more_tbl.items() if req})
+        foo = {"foo": ("str", False)}
+        for more in (True, False):
+            cases.append(("jwe", True, None, dict(base), more))
+            cases.append(("jwe", True, foo, dict(base, foo="v"), more))
+            cases.append(("jwe", False, foo, dict(base, foo="v"), more))
+            cases.append(("jwe", True, foo, dict(base, foo=7), more))
+            cases.append(("jwe", True, foo, dict(base, bar="x"), more))
+            cases.append(("jwe", True, {"foo": ("int", True)}, dict(base), more))
+            for n_, (t_, req) in more_tbl.items():
+                cases.append(("jwe", True, None, {k_: v_ for k_, v_ in base.items() if k_ != n_}, more))
+                cases.append(("jwe", True, None, dict(base, **{n_: bad_of[t_]}), more))
+                cases.append(("jwe", True, None, dict(base, **{n_: good[n_]}), more))
     lines = []
     keep = []
     for kind, strict, extra, h, more in cases:
@@ -186,6 +208,57 @@ def e2e(ctx):
                        {"kind": kind, "header": repr(h), "strict": strict, "extra": extra, "produced": produced},
                        f"produce:{kind}:{'accepts-bad' if not wantp else 'rejects-good'}")
     J.run_verify_cases(ctx, "header-consume", _batch, check_c01=False, prop="C15")
+    # producing with the header split over the protected and the unprotected position - flattened, general and the
+    # RFC 7797 JSON function (b64 absent / true / false): the MERGED header is what has to be acceptable
+    for _ in range(60 if ctx.tier == "quick" else 600):
+        alg = rng.choice(["HS256", "ES256", "EdDSA"])
+        kn = J.ALG_KEYS[alg][0]
+        strict = rng.random() < 0.6
+        extra = rng.choice(EXTRAS)
+        kind = rng.choice(["flat", "general", "j7797", "j7797"])
+        rkind = "jws7797" if kind == "j7797" else "jws"
+        h = next(H.gen_headers(rng, "jws", 1, [alg]))
+        h["alg"] = alg
+        h.pop("b64", None)
+        prot = {"alg": alg}
+        if kind == "j7797":
+            b = rng.choice(["absent", "false", "false", "true"])
+            if b != "absent":
+                prot.update({"b64": b == "true", "crit": ["b64"]})
+                h.pop("crit", None)
+        unprot = {k_: v for k_, v in h.items() if k_ != "alg"}
+        if rng.random() < 0.3 and unprot:
+            mv = rng.choice(sorted(unprot))
+            if mv != "crit":
+                prot[mv] = unprot.pop(mv)
+        merged = dict(unprot)
+        merged.update(prot)
+        try:
+            wire.enc_jval(merged)
+        except wire.Unencodable:
+            continue
+        reg = J.Reg(kind=rkind, strict=strict, allowed=J.ALL_ALGS, extra=H.extra_registry(extra))
+        member = {"protected": copy.deepcopy(prot)}
+        if unprot:
+            member["header"] = copy.deepcopy(unprot)
+        key = J.make_key(kn, private=True)
+        try:
+            kw = reg.impl_kwargs()
+            if kind == "flat":
+                jws.serialize_json(member, b"payload", key, **kw)
+            elif kind == "general":
+                jws.serialize_json([member], b"payload", key, **kw)
+            else:
+                rfc7797.serialize_json(member, b"payload", key, **kw)
+            produced = "ok"
+        except Exception as e:  # noqa: BLE001
+            produced = err_name(e)
+        ctx.count("header-produce-split", (kind, repr(prot), repr(unprot), strict, repr(extra)), True, f"{kind}:{produced}")
+        wantp = H.header_ok(rkind, strict, extra, merged)
+        if wantp != (produced == "ok"):
+            ctx.report(f"producing side ({kind}, header split over both positions): merged header {'acceptable' if wantp else 'violating HeaderOK'} but serialize returned {produced}",
+                       {"kind": kind, "protected": repr(prot), "header": repr(unprot), "strict": strict, "extra": extra, "produced": produced},
+                       f"produce-split:{kind}:{'accepts-bad' if not wantp else 'rejects-good'}")
 
 
 def e2e_jwe(ctx):
